@@ -76,10 +76,10 @@ func (c *Conn) CloseRead(ctx context.Context) context.Context {
 
 	go func() {
 		defer close(c.closeReadDone)
+		defer vhook(8, c, nil, 1, 0)
 		defer cancel()
 		defer c.close()
 		vhook(7, c, nil, 1, 0)
-		defer vhook(8, c, nil, 1, 0)
 		_, _, err := c.Reader(ctx)
 		if err == nil {
 			// Not c.Close: it waits for this very goroutine to exit, which made
